@@ -3307,7 +3307,8 @@ define_enum_type(InterrogateType &itype, CPPEnumType *cpptype) {
     evalue._value = next_value;
     itype._enum_values.push_back(evalue);
 
-    next_value++;
+    // (Wraps around after INT_MAX instead of overflowing.)
+    next_value = (int)((unsigned int)next_value + 1u);
   }
 }
 
